@@ -798,6 +798,91 @@ Definition api_probe_link (ph : N) (l : lkind) : M (list wtok) :=
   s <- get_st ;;
   ret (probe_linklist (sto s) (child (sto s) (ha p) (TS (lname l)))).
 
+(* ---- the copy family: File.create_block / Block.create_data_array, create_tag,
+   create_multi_tag (copy_from=...) / File.copy_section / Section.copy_section /
+   Section.create_property(copy_from=...), all through H5Group.copy *)
+Definition copy_container (dk xk : ekind) : option ckind :=
+  match dk, xk with
+  | KFile, KBlock => Some CBlocks
+  | KBlock, KDataArray => Some CDataArrays
+  | KBlock, KTag => Some CTags
+  | KBlock, KMultiTag => Some CMultiTags
+  | KFile, KSection | KSection, KSection => Some CSections
+  | KSection, KProperty => Some CProperties
+  | _, _ => None
+  end.
+Definition gen_ids (k : nat) : M N :=
+  fun s => (mkSt (sto s) (hs s) (auto s) (ro s) (nid s + N.of_nat k), inl (nid s)).
+Definition n_nodes : M nat := rd (fun s => length (nodes s)).
+(* the i-th property of the source section, copied into the (shallow) copy [ca]'s properties *)
+Fixpoint copy_props (pgrp : addr) (props : list (tok * addr)) (keep : bool) : M unit :=
+  match props with
+  | [] => ret tt
+  | (k, pa) :: rest =>
+      a <- wr_ret (fun s => let '(s1, c) := new_node s (hollow (node_at s pa)) in (add_link s1 pgrp k c, c)) ;;
+      wr (fun s => set_attr s a k_name (Some (AText k))) ;;;
+      (if keep then ret tt
+       else id <- gen_id ;; wr (fun s => set_attr s a k_id (Some (AText id)))) ;;;
+      copy_props pgrp rest keep
+  end.
+Definition api_copy (dh xh : N) (name : option tok) (keep children : bool) : M N :=
+  d <- the_handle dh ;; x <- the_handle xh ;;
+  match copy_container (hk d) (hk x) with
+  | None => fail EType
+  | Some c =>
+      let cg := cgroup (hk d) c in
+      let srccg := match hk x with
+                   | KSection => if Nat.eqb (hown x) 0 then s_metadata else s_sections
+                   | _ => cname c
+                   end in
+      srcname <- rd (fun s => entity_name s (ha x)) ;;
+      match (match name with Some n => Some n | None => srcname end) with
+      | None => fail EOther
+      | Some name' =>
+          (* the duplicate-name test; the block / section variants create the container first *)
+          (match hk d with
+           | KFile => ret tt
+           | _ => ca <- wr_ret (fun s => ensure_group s (ha d) (TS cg)) ;; ret tt
+           end) ;;;
+          dup <- rd (fun s => in_group s (child s (ha d) (TS cg)) name') ;;
+          guard (negb dup) EOther ;;;                              (* NameError *)
+          (* H5Group.copy *)
+          ca <- wr_ret (fun s => ensure_group s (ha d) (TS cg)) ;;
+          src <- rd (fun s => match srcname with
+                              | Some sn => match child s (hown x) (TS srccg) with
+                                           | Some g => child s g sn
+                                           | None => None
+                                           end
+                              | None => None
+                              end) ;;
+          match src with
+          | None => fail EKey
+          | Some sa =>
+              n0 <- n_nodes ;;
+              let shallow := negb children && ekind_eqb (hk x) KSection in
+              a <- wr_ret (fun s => if shallow then h5copy_shallow s sa else (h5copy s, copy_addr s sa)) ;;
+              wr (fun s => add_link s ca name' a) ;;;
+              wr (fun s => set_attr s a k_name (Some (AText name'))) ;;;
+              (if keep then ret tt
+               else n1 <- n_nodes ;; base <- gen_ids (n1 - n0) ;; wr (fun s => regen_ids s n0 base)) ;;;
+              (if shallow
+               then props <- rd (fun s => match child s sa (TS s_properties) with
+                                          | Some g => links (node_at s g)
+                                          | None => []
+                                          end) ;;
+                    match props with
+                    | [] => ret tt
+                    | _ => pg <- wr_ret (fun s => ensure_group s a (TS s_properties)) ;; copy_props pg props keep
+                    end
+               else ret tt) ;;;
+              (* the result is looked up by name in the destination container *)
+              s <- get_st ;;
+              r <- lift_sum (container_get (sto s) (Some ca) (KeyName name') (hs s)) ;;
+              new_handle (mkH (snd r) (hk x) (ha d) (hown d))
+          end
+      end
+  end.
+
 (* ---- the operation alphabet of histories *)
 Inductive op :=
 | OCreate (p : N) (c : ckind) (name type : tok) (payload : list Z)
@@ -816,6 +901,7 @@ Inductive op :=
 | OReferring (p : N) (c : ckind)
 | OProbe (p : N) (c : ckind)
 | OProbeLink (p : N) (l : lkind)
+| OCopy (d x : N) (name : option tok) (keep children : bool)
 | OSetAuto (b : bool)
 | OReopen (readonly : bool).
 
@@ -850,6 +936,7 @@ Definition exec (o : op) (now : Z) : st -> st * ores :=
   | OReferring p c => wrapT (api_referring p c)
   | OProbe p c => wrapT (api_probe p c)
   | OProbeLink p l => wrapT (api_probe_link p l)
+  | OCopy d x n k c => wrapN (api_copy d x n k c)
   | OSetAuto b => fun s => (mkSt (sto s) (hs s) b (ro s) (nid s), ROk None)
   | OReopen r => wrapN (api_reopen r)
   end.
